@@ -231,7 +231,7 @@ class Sym:
         return box(Term("blk", self.name, coords))
 
 
-KINDS = ("one2one", "two", "list", "stream", "alternate", "concat", "multi")
+KINDS = ("one2one", "two", "list", "stream", "alternate", "concat", "multi", "mixlist", "mixstream")
 
 
 class Node:
@@ -255,7 +255,7 @@ class Node:
         k = self.kind
         if k in ("one2one", "multi"):
             return nbs[0]
-        if k == "two":
+        if k in ("two", "mixlist", "mixstream"):
             return nbs[0] if nbs[0] == nbs[1] else None
         if k in ("list", "stream"):
             return nbs[0][:-1] if len(nbs[0]) >= 1 else None
@@ -300,6 +300,17 @@ class Node:
             def fn(xs):
                 return box(Term(label, val(xs)))
             nib = (m,)
+        elif k in ("mixlist", "mixstream"):
+            # one argument: a list / stream of blocks taken from two DIFFERENT arrays
+            if k == "mixlist":
+                def kf(out_key):
+                    return FunctionArgs([ChunkKey(names[0], out_key.coords), ChunkKey(names[1], out_key.coords)], output_name=out_key.name)
+            else:
+                def kf(out_key):
+                    return FunctionArgs(iter([ChunkKey(names[0], out_key.coords), ChunkKey(names[1], out_key.coords)]), output_name=out_key.name)
+            def fn(xs):
+                return box(Term(label, val(xs)))
+            nib = (1, 1)
         elif k == "alternate":
             def kf(out_key):
                 c = out_key.coords
@@ -358,7 +369,7 @@ def describe(node):
 
 
 def arity(kind):
-    return {"one2one": 1, "two": 2, "list": 1, "stream": 1, "alternate": 2, "concat": 2, "multi": 1}[kind]
+    return {"one2one": 1, "two": 2, "list": 1, "stream": 1, "alternate": 2, "concat": 2, "multi": 1, "mixlist": 2, "mixstream": 2}[kind]
 
 
 def tree_specs(depth):
